@@ -123,13 +123,13 @@ func (e *Engine) targetsFor(prop string) (funcs []string, lemmas []*LemmaDef) {
 		if ct.Trusted {
 			continue
 		}
-		if ct.Opaque {
+		if ct.Opaque && !ct.Sweep {
 			// opaque contracts take part only through their structural obligations
 			if _, ok := ct.Attrs["deterministic"]; !ok || !hasProp(ct.Props, prop) {
 				continue
 			}
 		}
-		use := hasProp(ct.Props, prop)
+		use := hasProp(ct.Props, prop) || hasProp(strings.Fields(strings.ReplaceAll(ct.Attrs["safety"], ",", " ")), prop)
 		for _, cl := range ct.Ensures {
 			if hasProp(cl.Props, prop) {
 				use = true
